@@ -232,7 +232,7 @@ def generalized_fma(mult_pairs, add_wires, signed=False, reducer=adders.wallace_
     """
     # first need to figure out the max length
     if mult_pairs:  # Need to deal with the case when it is empty
-        mult_max = max(len(m[0]) + len(m[1]) - 1 for m in mult_pairs)
+        mult_max = max(len(m[0]) + len(m[1]) for m in mult_pairs)
     else:
         mult_max = 0
 
